@@ -115,6 +115,15 @@ def _gates(tier):
     qb = BQ.build(["N", "U"], [0, None], 12, 3, backing_name="base.img")[0].tobytes()
     yield dict(name="qcow2.backing_file_required", kind="single",
                seed_ok=lambda: _open_qcow2(qb, backing_file=io.BytesIO(b"\1" * 8192)), fault=lambda: _open_qcow2(qb))
+    # both companions named by one image: each is required on its own
+    qdb, qdbd = BQ.build(["N", "U"], [0, None], 12, 3, data_file=True, backing_name="base.img")
+    both = lambda **kw: _open_qcow2(qdb.tobytes(), **kw)  # noqa: E731
+    yield dict(name="qcow2.backing_file_required.with_data_file", kind="single",
+               seed_ok=lambda: both(data_file=qdbd.bytesio(), backing_file=io.BytesIO(b"\1" * 8192)),
+               fault=lambda: both(data_file=qdbd.bytesio()))
+    yield dict(name="qcow2.data_file_required.with_backing_file", kind="single",
+               seed_ok=lambda: both(data_file=qdbd.bytesio(), backing_file=io.BytesIO(b"\1" * 8192)),
+               fault=lambda: both(backing_file=io.BytesIO(b"\1" * 8192)))
     qz = bytearray(BQ.build(["C"], [None], 12, 3)[0].tobytes())
     struct.pack_into(">Q", qz, 72, 8)  # incompatible bit 3: compression type field is in use
     qz[104] = 1  # zstd
@@ -209,6 +218,14 @@ def _gates(tier):
                open=open_hv, extra_values=[0x300, 0x401, 0x500, 0x4000400 & 0xFFFFFFFF])
     yield dict(name="hyperv.replay_log_signature", kind="magic", raw=hv, off=0x8000, width=4, open=open_hv)
     yield dict(name="hyperv.object_table_signature", kind="magic", raw=hv, off=0x2000, width=4, open=open_hv)
+    # the size the headers record for the replay log is not part of what makes the log's signature valid
+    for lsize in (0, 0x200, 0x2000):
+        hvl = bytearray(hv.tobytes() if hasattr(hv, "tobytes") else hv)
+        for hoff in (0, 0x1000):
+            if hvl[hoff : hoff + 4] == hvl[0:4]:
+                struct.pack_into("<Q", hvl, hoff + 34, lsize)
+        yield dict(name=f"hyperv.replay_log_signature.log_size_{lsize:#x}", kind="magic", raw=bytes(hvl), off=0x8000, width=4,
+                   open=open_hv)
     yield dict(name="hyperv.key_table_signature", kind="magic", raw=hv, off=0x10000, width=2, open=open_hv)
     # structures that are only listed in object tables 1..3 levels below the first one (chained or fanned out): the
     # chained tables themselves, the key table and the replay log listed in the deepest one
